@@ -95,6 +95,19 @@ var c18Templates = []string{
 	`(try (swap! (atom N) (fn [v] (fn))) (catch e (str e)))`,
 	// a tail loop far deeper than the recursion of the other programs
 	`(do (def sum-to (fn [n acc] (if (= n 0) acc (sum-to (- n 1) (+ acc n))))) (sum-to (+ 4000 N) 0))`,
+	// the same literal node evaluated several times with different values
+	`(do (def mk (fn [x] {:x x :sq (* x x)})) (list (mk 1) (mk 2) (mk N)))`,
+	`(map (fn [x] {:v x :w [x (+ x N)]}) [1 2 3])`,
+	`(do (def mkv (fn [x] [x (* x 2) {:s (str x)}])) (list (mkv 1) (mkv N) (mkv 3)))`,
+	`(reduce (fn [acc x] (conj acc {:i x :t (trace! (+ x N))})) [] [1 2 3])`,
+	// a let whose init forms read the outer binding of the name they are about to shadow
+	`(let [limit N] (let [limit (if limit (+ limit 1) 100) lim2 (* limit 2)] (list limit lim2)))`,
+	`(do (def lv N) ((fn [lv] (let [lv (if lv lv 7) w (trace! lv)] (list lv w))) 5))`,
+	`(let [x 1] (let [x (+ x N) x (* x 2)] (try (let [x (throw x)] x) (catch x (list :caught x)))))`,
+	// quasiquote templates whose unquotes sit inside vectors and maps
+	`(let [a N c (list 1 2)] (quasiquote [(unquote a) (splice-unquote c)]))`,
+	`(let [a N] (quasiquote (pair [(unquote a) (unquote a)] {:k [(unquote a)]})))`,
+	`(do (defmacro with-tmp (fn [v] (quasiquote (let [tmp (unquote v)] (list tmp tmp))))) (with-tmp (+ N 1)))`,
 	// forms with more than ten items
 	`(str 1 2 3 4 5 6 7 8 9 10 N 12)`,
 	`(do (trace! 1) (trace! 2) (trace! 3) (trace! 4) (trace! 5) (trace! 6) (trace! 7) (trace! 8) (trace! 9) (trace! 10) (trace! 11) N)`,
